@@ -216,6 +216,11 @@ class Walker:
                 pass
         for i in obs['ilis']:
             if i and i[0] is not None:
+                self.call('Wordnet.synsets(ili)')
+                want = sorted(k_ for k_, d in obs['synsets'].items() if isinstance(d, dict) and d.get('ili') and d['ili'][0] == i[0])
+                got = sorted(self.k(x, 'Wordnet.synsets(ili)') for x in w.synsets(ili=i[0]))
+                if got != want:
+                    bad[f'synsets(ili={i[0]!r})'] = f'returned {got}, the enumerated synsets with that ILI are {want}'
                 self.call('Wordnet.ili(id)')
                 try:
                     got = w.ili(i[0])
